@@ -64,13 +64,12 @@ static inline bool vs_core_isvoid(const struct Pistache_Async_Private_Core *c) {
    void core and BadType when T is not the core's value type; otherwise it (re)builds the value in the core's storage, sets `allocated`
    and makes the core Fulfilled.  ghost: how often a value was stored */
 size_t g_constructs;
-static inline void vs_core_construct(struct Pistache_Async_Private_Core *c, const void *arg)
+static inline void vs_core_construct(struct Pistache_Async_Private_Core *c)
 {
-    (void)arg;
     if (vs_core_isvoid(c)) { vs_exc = VS_EXC_RUNTIME_ERROR; return; }
     if (vs_nondet_bool()) { vs_exc = VS_EXC_RUNTIME_ERROR; return; }      /* BadType: the types are erased, a mismatch is found only here */
     c->allocated = 1; c->state = ST_FULFILLED;
-    if (g_constructs < 4) g_constructs++;
+    if (c == g_exp_core && g_constructs < 4) g_constructs++;       /* counted for the promise under consideration */
 }
 #define CORE_OK(c) ((c)->requests.n <= REQ_MAX && (c)->state >= ST_PENDING && (c)->state <= ST_REJECTED && !(c)->mtx.held)
 #define GHOST0 (vs_exc == 0 && g_k_res == 0 && g_k_rej == 0 && g_res_calls == 0 && g_rej_calls == 0 && g_constructs == 0)
@@ -79,6 +78,13 @@ static inline void vs_core_construct(struct Pistache_Async_Private_Core *c, cons
                     && (d)->resolved <= (d)->total && (d)->total >= 1 && !(d)->mtx.held)
 /* any-of bookkeeping (Impl::Any::Data): done <=> the combined promise has taken an outcome */
 #define ANY_INV(d) (IFF((d)->done, (d)->reject.core_->state != ST_PENDING) && !(d)->mtx.held)
+/* std::make_shared<CoreT<T>>(): a new pending core without continuations (one per call site suffices: it is handed over at once) */
+struct Pistache_Async_Private_Core vs_tmp_core;
+static inline struct Pistache_Async_Private_Core *vs_new_core(void)
+{
+    vs_tmp_core.allocated = 0; vs_tmp_core.state = ST_PENDING; vs_tmp_core.requests.n = 0; vs_tmp_core.mtx.held = 0;
+    return &vs_tmp_core;
+}
 /* Request::resolve(core) / Request::reject(core) of attached continuation number `req` */
 static inline void vs_req_resolve(size_t req, struct Pistache_Async_Private_Core *const *core)
 {
@@ -103,6 +109,7 @@ RIT = '__gnu_cxx::__normal_iterator<std::shared_ptr<Pistache::Async::Private::Re
 RV = 'std::vector<std::shared_ptr<Pistache::Async::Private::Request>>'
 TYPES = {'std::tuple<int, int>': 'struct vs_tuple2', 'Pistache::TypeId': 'int', 'std::mutex': 'struct vs_mutex', 'std::exception_ptr': 'int', 'std::__exception_ptr::exception_ptr': 'int',
          'std::shared_ptr<Private::Core>': CORE, 'std::shared_ptr<Pistache::Async::Private::Core>': CORE, 'std::shared_ptr<Core>': CORE,
+         'std::shared_ptr<Pistache::Async::Private::CoreT<int>>': CORE, 'shared_ptr<Pistache::Async::Private::CoreT<int>>': CORE, 'shared_ptr<_NonArray<Pistache::Async::Private::CoreT<int>>>': CORE,
          'std::atomic<State>': 'int', 'std::atomic<Pistache::Async::State>': 'int',
          'std::vector<std::shared_ptr<Request>>': 'struct vs_reqvec', 'std::vector<std::shared_ptr<Pistache::Async::Private::Request>>': 'struct vs_reqvec',
          'std::unique_lock<std::mutex>': 'struct vs_ulock', 'std::lock_guard<std::mutex>': 'struct vs_ulock',
@@ -119,7 +126,10 @@ STUBS = {
     'operator=|std::atomic<Pistache::Async::State>': {'expr': '(($0) = ($1))'},
     'operator=|std::__exception_ptr::exception_ptr': {'expr': '(($0) = ($1))'},
     'make_exception_ptr': 'vs_make_eptr', 'forward': {'expr': '($0)'}, 'move': {'expr': '($0)'},
-    'Pistache::Async::Private::Core::construct': 'vs_core_construct',
+    'Pistache::Async::Private::Core::construct': {'expr': 'vs_core_construct($this)', 'throws_void': True},
+    'make_shared': {'expr': 'vs_new_core()'},
+    'operator->|std::__shared_ptr_access<Pistache::Async::Private::CoreT<int>, __gnu_cxx::_S_atomic, false, false>': {'expr': '($0)'},
+    'ctor:Pistache::Async::Any/1': {'expr': '((struct vs_opaque){0})'}, 'ctor:std::shared_ptr<Pistache::Async::Private::Core>/1': {'expr': '($0)'},
     'operator!=|Pistache::TypeId,Pistache::TypeId': {'expr': '(($0) != ($1))'},
     RV + '::begin': {'expr': '((size_t)0)'}, RV + '::end': {'expr': '(($this)->n)'},
     'operator!=|' + RIT: {'expr': '(($0) != ($1))'}, 'operator++|' + RIT: {'expr': '(++($0))'}, 'operator*|' + RIT: {'expr': '(*vs_req_at($0))'},
@@ -172,18 +182,73 @@ REJ_CONTRACT = settle_pre(C) + """
         ensures vs_exc == 0 || (vs_exc == VS_EXC_RUNTIME_ERROR && this->core_ != 0 && OLD(this->core_->state) != ST_PENDING) || (vs_exc == VS_EXC_OTHER_STD && g_rej_calls > 0)
         ensures this->core_ != 0 ==> (!this->core_->mtx.held && this->core_->requests.n == OLD(this->core_->requests.n))"""
 REJ_LOOP = """
-        assigns __begin3, vs_exc, g_k_rej, g_rej_calls, vs_req_slot
-        invariant __begin3 <= __end3 && __end3 == this->core_->requests.n && vs_exc == 0 && g_rej_calls == __begin3 && g_k_rej == ((g_k < __begin3) ? 1 : 0)
+        assigns $BEGIN, vs_exc, g_k_rej, g_rej_calls, vs_req_slot
+        invariant $BEGIN <= $END && $END == this->core_->requests.n && vs_exc == 0 && g_rej_calls == $BEGIN && g_k_rej == ((g_k < $BEGIN) ? 1 : 0)
         invariant this->core_->state == ST_REJECTED && this->core_->exc == g_exp_exc && this->core_->mtx.held && guard.m == &this->core_->mtx
-        decreases __end3 - __begin3"""
+        decreases $END - $BEGIN"""
+
+def RES_CONTRACT(void):
+    want_void = 'g_type_void' if void else '!g_type_void'
+    return settle_pre(C) + """
+        assigns """ + GH + """; this->core_ != 0: this->core_->state, this->core_->allocated, this->core_->mtx
+        # a Resolver that was cleared settles nothing
+        ensures this->core_ == 0 ==> (!RET && vs_exc == 0 && g_rej_calls == 0 && g_res_calls == 0)
+        # a promise that is no longer pending: Async::Error, nothing is touched, no continuation runs
+        ensures (this->core_ != 0 && OLD(this->core_->state) != ST_PENDING) ==> (vs_exc == VS_EXC_RUNTIME_ERROR && this->core_->state == OLD(this->core_->state) && g_res_calls == 0 && g_constructs == 0)
+        # a void promise cannot be resolved with a value and a value promise not without one: Async::Error, still pending
+        ensures (this->core_ != 0 && OLD(this->core_->state) == ST_PENDING && !(%(wv)s)) ==> (vs_exc == VS_EXC_RUNTIME_ERROR && this->core_->state == ST_PENDING && g_res_calls == 0)
+        # a pending promise becomes fulfilled (the value is stored once) and the fulfilment side of EVERY attached continuation is invoked
+        # exactly once (unless one of them raises), the rejection side of none
+        ensures (this->core_ != 0 && OLD(this->core_->state) == ST_PENDING && %(wv)s && vs_exc == 0) ==> (RET && this->core_->state == ST_FULFILLED && g_constructs == %(nc)s && g_res_calls == this->core_->requests.n && (this->core_->requests.n > 0 ==> g_k_res == 1))
+        ensures (this->core_ != 0 && g_res_calls > 0) ==> this->core_->state == ST_FULFILLED
+        ensures this->core_ != 0 ==> (this->core_->state == OLD(this->core_->state) || (OLD(this->core_->state) == ST_PENDING && this->core_->state == ST_FULFILLED))
+        ensures g_rej_calls == 0 && g_k_res <= 1 && (this->core_ != 0 ==> g_res_calls <= this->core_->requests.n) && g_constructs <= 1
+        ensures vs_exc == 0 || vs_exc == VS_EXC_RUNTIME_ERROR || (vs_exc == VS_EXC_OTHER_STD && g_res_calls > 0)
+        ensures (vs_exc == VS_EXC_RUNTIME_ERROR && this->core_ != 0 && OLD(this->core_->state) == ST_PENDING && %(wv)s) ==> (g_res_calls == 0 && this->core_->state == ST_PENDING)
+        ensures this->core_ != 0 ==> (!this->core_->mtx.held && this->core_->requests.n == OLD(this->core_->requests.n))""" % {'wv': want_void, 'nc': '0' if void else '1'}
+RES_LOOP = """
+        assigns $BEGIN, vs_exc, g_k_res, g_res_calls, vs_req_slot
+        invariant $BEGIN <= $END && $END == this->core_->requests.n && vs_exc == 0 && g_res_calls == $BEGIN && g_k_res == ((g_k < $BEGIN) ? 1 : 0)
+        invariant this->core_->state == ST_FULFILLED && this->core_->mtx.held && guard.m == &this->core_->mtx
+        decreases $END - $BEGIN"""
 def comb_pre(d, inv):
     return """requires FRESH(data, sizeof(*data)) && FRESH(%(d)s, sizeof(*%(d)s)) && FRESH(%(d)s->reject.core_, sizeof(*%(d)s->reject.core_)) && PTR_EQ(%(d)s->resolve.core_, %(d)s->reject.core_)
         requires CORE_OK(%(d)s->reject.core_) && g_exp_core == %(d)s->reject.core_ && %(inv)s(%(d)s) && !g_type_void
         requires GHOST0 && (%(d)s->reject.core_->requests.n == 0 || g_k < %(d)s->reject.core_->requests.n)""" % {'d': d, 'inv': inv}
 D = '(*data)'
+
+def ALL_RESOLVE(idx):
+    other = 1 - idx
+    return comb_pre(D, 'ALL_INV') + """
+        requires FRESH(val, sizeof(*val))
+        # the input that fulfils now has not settled before (Continuable's guards): it is still counted as outstanding
+        requires !(*data)->rejected ==> (*data)->resolved < (*data)->total
+        assigns """ + GH + """, (*data)->resolved, (*data)->results, (*data)->mtx, (*data)->reject.core_->state, (*data)->reject.core_->allocated, (*data)->reject.core_->mtx
+        # after a rejection the all-of promise has its outcome: a later fulfilment is ignored, silently
+        ensures OLD((*data)->rejected) ==> (vs_exc == 0 && (*data)->reject.core_->state == ST_REJECTED && (*data)->resolved == OLD((*data)->resolved) && g_res_calls == 0)
+        # otherwise the value goes into the slot of ITS argument position -- the other slots are not touched -- and the input is counted once
+        ensures !OLD((*data)->rejected) ==> ((*data)->results.v[%(i)d] == *val && (*data)->resolved == OLD((*data)->resolved) + 1)
+        ensures (*data)->results.v[%(o)d] == OLD((*data)->results.v[%(o)d])
+        # the all-of promise is fulfilled exactly when the LAST input fulfils, not before, and then once
+        ensures (!OLD((*data)->rejected) && OLD((*data)->resolved) + 1 < (*data)->total) ==> (vs_exc == 0 && (*data)->reject.core_->state == ST_PENDING && g_res_calls == 0 && g_constructs == 0)
+        ensures (!OLD((*data)->rejected) && OLD((*data)->resolved) + 1 == (*data)->total && vs_exc == 0) ==> ((*data)->reject.core_->state == ST_FULFILLED && g_constructs == 1 && g_res_calls == (*data)->reject.core_->requests.n)
+        ensures g_rej_calls == 0 && g_k_res <= 1 && !(*data)->mtx.held && (*data)->total == OLD((*data)->total) && (*data)->rejected == OLD((*data)->rejected)
+        ensures vs_exc == 0 ==> ALL_INV((*data))""" % {'i': idx, 'o': other}
+ANY_RESOLVE = comb_pre(D, 'ANY_INV') + """
+        requires FRESH(val, sizeof(*val))
+        assigns """ + GH + """, (*data)->done, (*data)->mtx, (*data)->reject.core_->state, (*data)->reject.core_->allocated, (*data)->reject.core_->mtx, vs_tmp_core
+        # an any-of promise takes the FIRST outcome: a later fulfilment of another input is ignored, silently
+        ensures OLD((*data)->done) ==> (vs_exc == 0 && (*data)->reject.core_->state == OLD((*data)->reject.core_->state) && g_res_calls == 0 && g_constructs == 0)
+        ensures (!OLD((*data)->done) && vs_exc == 0) ==> ((*data)->reject.core_->state == ST_FULFILLED && (*data)->done && g_res_calls == (*data)->reject.core_->requests.n)
+        ensures g_rej_calls == 0 && g_k_res <= 1 && !(*data)->mtx.held
+        ensures vs_exc == 0 ==> ANY_INV((*data))"""
 DC = '(*data)->reject.core_'
 FUNCTIONS = [
     {'q': 'Pistache::Async::Rejection::operator()', 'sig': 'bool (std::__exception_ptr::exception_ptr) const', 'c': 'Rejection_call_eptr', 'contract': REJ_CONTRACT, 'loops': [REJ_LOOP]},
+    {'q': 'Pistache::Async::Resolver::operator()', 'sig': 'bool (int &&) const', 'c': 'Resolver_call_int', 'contract': RES_CONTRACT(False), 'loops': [RES_LOOP]},
+    {'q': 'Pistache::Async::Resolver::operator()', 'sig': 'bool () const', 'c': 'Resolver_call_void', 'contract': RES_CONTRACT(True), 'loops': [RES_LOOP]},
+    {'q': 'Pistache::Async::Resolver::operator()', 'sig': 'bool (Pistache::Async::Any &&) const', 'c': 'Resolver_call_any', 'contract': RES_CONTRACT(False), 'loops': [RES_LOOP]},
+    {'q': 'Pistache::Async::Resolver::operator()', 'sig': 'bool (std::tuple<int, int> &) const', 'c': 'Resolver_call_tuple', 'contract': RES_CONTRACT(False), 'loops': [RES_LOOP]},
     dict({'q': 'Pistache::Async::Impl::All::reject', 'contract': comb_pre(D, 'ALL_INV') + """
         # the input that is rejected now has not fulfilled before (Continuable's guards): the all-of promise cannot be fulfilled yet
         requires (*data)->reject.core_->state != ST_FULFILLED
@@ -195,6 +260,9 @@ FUNCTIONS = [
         ensures OLD((*data)->reject.core_->state) == ST_PENDING ==> ((*data)->reject.core_->state == ST_REJECTED && (vs_exc == 0 ==> g_rej_calls == (*data)->reject.core_->requests.n))
         ensures vs_exc == 0 || (vs_exc == VS_EXC_OTHER_STD && g_rej_calls > 0)
         ensures g_res_calls == 0 && g_k_rej <= 1 && ALL_INV((*data))"""}, **T_ALL),
+    dict({'q': 'Pistache::Async::Impl::All::resolveT', 'targs': [0, 'int', 'const std::shared_ptr<Data>'], 'c': 'All_resolveT_0', 'contract': ALL_RESOLVE(0)}, **T_ALL0),
+    dict({'q': 'Pistache::Async::Impl::All::resolveT', 'targs': [1, 'int', 'const std::shared_ptr<Data>'], 'c': 'All_resolveT_1', 'contract': ALL_RESOLVE(1)}, **T_ALL1),
+    dict({'q': 'Pistache::Async::Impl::Any::resolveT', 'targs': [0, 'int', 'const std::shared_ptr<Data>'], 'c': 'Any_resolveT_0', 'contract': ANY_RESOLVE}, **T_ANY),
     dict({'q': 'Pistache::Async::Impl::Any::reject', 'contract': comb_pre(D, 'ANY_INV') + """
         assigns """ + GH + """, (*data)->done, (*data)->mtx, (*data)->reject.core_->state, (*data)->reject.core_->exc, (*data)->reject.core_->mtx
         # C11: an any-of promise takes the FIRST outcome; a later rejection of another input is ignored without raising an error in the
@@ -205,7 +273,14 @@ FUNCTIONS = [
         ensures g_res_calls == 0 && g_k_rej <= 1 && ANY_INV((*data))"""}, **T_ANY),
 ]
 PROOFS = [
+    {'name': 'Resolver_call_value', 'enforce': 'Resolver_call_int', 'loops': 'contracts', 'props': ['C11']},
+    {'name': 'Resolver_call_void', 'enforce': 'Resolver_call_void', 'loops': 'contracts', 'props': ['C11']},
+    {'name': 'Resolver_call_any', 'enforce': 'Resolver_call_any', 'loops': 'contracts', 'props': ['C11']},
+    {'name': 'Resolver_call_tuple', 'enforce': 'Resolver_call_tuple', 'loops': 'contracts', 'props': ['C11']},
     {'name': 'Rejection_call', 'enforce': 'Rejection_call_eptr', 'loops': 'contracts', 'props': ['C11']},
     {'name': 'All_reject', 'enforce': 'Pistache_Async_Impl_All_reject', 'replace': ['Rejection_call_eptr'], 'props': ['C11']},
+    {'name': 'All_resolveT_0', 'enforce': 'All_resolveT_0', 'replace': ['Resolver_call_tuple'], 'props': ['C11']},
+    {'name': 'All_resolveT_1', 'enforce': 'All_resolveT_1', 'replace': ['Resolver_call_tuple'], 'props': ['C11']},
+    {'name': 'Any_resolveT_0', 'enforce': 'Any_resolveT_0', 'replace': ['Resolver_call_any'], 'props': ['C11']},
     {'name': 'Any_reject', 'enforce': 'Pistache_Async_Impl_Any_reject', 'replace': ['Rejection_call_eptr'], 'props': ['C11']},
 ]
